@@ -1,13 +1,13 @@
 SPECIFICATION Spec
-CONSTANTS MaxPages = 6
+CONSTANTS MaxPages = 3
  EndAt = "data"
  Lens = {1,4}
  Chunk = 4
  Reads = {2}
- BackUpRule = "plus1"
+ BackUpRule = "begin"
  HandOver = "refetch"
  GuessRule = "clamped"
- Lies = FALSE
+ Lies = TRUE
 INVARIANT Terminates
-INVARIANT SubmitsTheRightPage
+INVARIANT ProbesInsideFile
 CHECK_DEADLOCK FALSE
